@@ -36,7 +36,9 @@ def build(scope):
     i = 0
     while i < len(at_values):
         name = 'A%d' % npol
-        multi = ['L%02dx' % q for q in range(1, 33)] if npol % 40 == 7 else ([] if npol % 3 else ['ST', 'DT'])
+        # policies sharing a multi-character letter at DIFFERENT positions of their sorted letter lists ('ST' is first in
+        # ['ST','ZT'], second in ['DT','ST'], third in ['AT','DT','ST']): a letter index is per policy, not per string
+        multi = ['L%02dx' % q for q in range(1, 33)] if npol % 40 == 7 else ([] if npol % 3 else [['ST', 'DT'], ['ST', 'ZT'], ['AT', 'DT', 'ST']][(npol // 3) % 3])
         for j in range(per):
             if i >= len(at_values):
                 break
